@@ -88,6 +88,11 @@ var goDiffClassRe = regexp.MustCompile(`\[\d+\]|: .*$`)
 // goDiff compares the ORIGINAL message with the decoded one as Go values: the same alternatives of a union must be
 // populated, the same concrete types must sit behind interfaces, absent stays absent. It returns "" or the first
 // difference. Equal instants, equal big integers and nil/empty slices count as equal.
+// GoDiff compares two Go values the way C01 compares a message with its decoded copy ("" = equal in content).
+func GoDiff(a, b any, root string) string {
+	return goDiff(reflect.ValueOf(a), reflect.ValueOf(b), root, 0)
+}
+
 func goDiff(a, b reflect.Value, path string, depth int) string {
 	if depth > 60 {
 		return ""
